@@ -20,7 +20,7 @@ VARIABLES log, globals
 vars == <<log, globals>>
 (* the corpus (lib/c18_corpus.py): valid / invalid 837P 4010, a 837P with many AK3 lines, valid / invalid 834 5010, *)
 (* an 835, a 270, and a file with two interchanges and eight functional groups (278, 837, 835)                      *)
-Corpus == <<"e834v5", "e834v5bad", "e834v5local", "manyerr", "multi", "p820", "p837", "p837bad", "q270", "r835">>
+Corpus == <<"e834v5", "e834v5bad", "e834v5local", "i837occ", "i837span", "manyerr", "multi", "p820", "p837", "p837bad", "q270", "r835">>
 DocSeq == SubSeq(Corpus, 1, NDocs)
 Docs == {DocSeq[n] : n \in 1..Len(DocSeq)}
 
